@@ -78,20 +78,21 @@ type closureInfo struct {
 
 // Exec symbolically executes one function (and inlined callees) into a Script.
 type Exec struct {
-	V          *Verifier
-	sc         *Script
-	root       *ssa.Function
-	obls       []*Obligation
-	notes      map[string]bool // assumptions / unsupported features encountered
-	counts     map[string]int  // for obligation naming
-	depth      int
-	ifaces     map[string]*types.Interface // interfaces asserted against
-	lockMode   bool
-	private    []Term // refs of non-escaping local cells (all frames)
-	noRestore  map[string]bool
-	inRequires bool
-	lkRequired map[string]bool
-	lkInit     map[string]bool
+	V             *Verifier
+	sc            *Script
+	root          *ssa.Function
+	obls          []*Obligation
+	notes         map[string]bool // assumptions / unsupported features encountered
+	counts        map[string]int  // for obligation naming
+	depth         int
+	ifaces        map[string]*types.Interface // interfaces asserted against
+	lockMode      bool
+	private       []Term // refs of non-escaping local cells (all frames)
+	noRestore     map[string]bool
+	privateAllocs []privAlloc
+	inRequires    bool
+	lkRequired    map[string]bool
+	lkInit        map[string]bool
 }
 
 type frame struct {
@@ -199,6 +200,19 @@ func (ex *Exec) loopHavoc(st *State, comp string) {
 		return
 	}
 	st.heap[comp] = ex.sc.freshConst("lhv:"+comp, sort)
+}
+
+func (ex *Exec) getFrom(heap map[string]Term, comp, sort string) Term {
+	if t, ok := heap[comp]; ok {
+		return t
+	}
+	return ex.sc.declare("pre:"+comp, sort)
+}
+
+type privAlloc struct {
+	alloc *ssa.Alloc
+	ref   Term
+	f     *frame
 }
 
 // assume adds a fact guarded by the state's reachability.
@@ -924,6 +938,10 @@ func (ex *Exec) enterLoop(f *frame, st *State, h *ssa.BasicBlock, li *loopInfo, 
 			}
 		}
 	}
+	loopEntryHeap := map[string]Term{}
+	for k, v := range st.heap {
+		loopEntryHeap[k] = v
+	}
 	mods := ex.V.loopMods(f.fn, li)
 	for _, c := range mods {
 		if c == "*" {
@@ -940,6 +958,38 @@ func (ex *Exec) enterLoop(f *frame, st *State, h *ssa.BasicBlock, li *loopInfo, 
 			continue
 		}
 		ex.loopHavoc(st, c)
+	}
+	// private cells that the loop body never stores to keep their value across the cut
+	for _, pa := range ex.privateAllocs {
+		if pa.f != f {
+			continue
+		}
+		stored := false
+		if refs := pa.alloc.Referrers(); refs != nil {
+			for _, ins := range *refs {
+				if sto, ok := ins.(*ssa.Store); ok && sto.Addr == pa.alloc && li.body[sto.Block()] {
+					stored = true
+				}
+			}
+		}
+		if stored {
+			continue
+		}
+		l := f.locOf(pa.alloc)
+		if l.kind != "obj" || l.root != nil {
+			continue // struct cells: fields handled by their own components; keep it simple
+		}
+		comp := compCell(l.typ)
+		sort, ok := ex.compSort(comp)
+		if !ok {
+			continue
+		}
+		cur, has := st.heap[comp]
+		if !has {
+			continue
+		}
+		entryVal := sel(ex.getFrom(loopEntryHeap, comp, sort), pa.ref)
+		st.heap[comp] = ex.sc.define(ex.sc.freshName("lp:"+comp), store(cur, pa.ref, entryVal))
 	}
 	// the clock only moves forward across iterations
 	if _, ok := ex.compSort("G:clock"); ok {
